@@ -476,4 +476,231 @@ theorem C06_safeOp_interior_class (sys : Sys N Nat Frame (Node W)) (side : N →
 
 end cutC
 
+/-! ## 4. a denying router and genuine ARP packets (the frames its list never sees) -/
+
+theorem firstEnabledIn_some (ip : Ip) : ∀ (ifs : List Iface) (k q : Nat), firstEnabledIn ifs ip k = some q →
+    k ≤ q ∧ ∃ j, ifs[q - k]? = some j ∧ j.inNet ip = true ∧ j.enabled = true := by
+  intro ifs
+  induction ifs with
+  | nil => intro k q h; simp [firstEnabledIn] at h
+  | cons i rest ih =>
+    intro k q h
+    simp only [firstEnabledIn] at h
+    split at h
+    · rename_i hc
+      injection h with h
+      subst h
+      simp only [Bool.and_eq_true] at hc
+      exact ⟨Nat.le_refl _, i, by simp, hc.1, hc.2⟩
+    · obtain ⟨hle, j, hj, h1, h2⟩ := ih (k + 1) q h
+      refine ⟨by omega, j, ?_, h1, h2⟩
+      have : q - k = (q - (k + 1)) + 1 := by omega
+      rw [this]; simpa using hj
+
+theorem firstEnabledIn_ne_none (ip : Ip) : ∀ (ifs : List Iface) (k p : Nat) (i : Iface), ifs[p]? = some i →
+    i.inNet ip = true → i.enabled = true → firstEnabledIn ifs ip k ≠ none := by
+  intro ifs
+  induction ifs with
+  | nil => intro k p i h; simp at h
+  | cons x rest ih =>
+    intro k p i h h1 h2
+    simp only [firstEnabledIn]
+    split
+    · simp
+    · cases p with
+      | zero =>
+        simp only [List.getElem?_cons_zero, Option.some.injEq] at h
+        subst h
+        rename_i hc
+        simp [h1, h2] at hc
+      | succ p => exact ih (k + 1) p i (by simpa using h) h1 h2
+
+section arp
+variable {N : Type} [DecidableEq N]
+
+/-- **A denying router's ARP handling stays on the attacker side** (was a rig-validated hypothesis).
+For the router software as modelled (`routerArpSoft`: session manager → ARP service → `_process_arp_request /
+_process_arp_reply`, reply sent through `resolve_outbound_network_interface(sender address)`; `process_frame` drops
+layer-2 broadcasts and frames for an own address), every genuine ARP packet that arrives on an attacker-facing
+interface is handled without anything leaving through a boundary interface, provided
+* ARP requests on the attacker side are broadcasts whose sender address lies in the network of the interface they
+  arrive on, and ARP replies addressed to an interface's MAC are addressed to its IP (what `send_arp_request` /
+  `generate_reply` build — `C06_arp_request_local`, `C06_localOp_stamps_arp_sender`),
+* no boundary interface's network meets the network of an attacker-facing interface (`netsDisjoint`, checked by the
+  certificate).
+No hypothesis on the opaque parts of the software (`RouterArp`) at all. -/
+theorem C06_router_arp_safe (sys : Sys N Nat Frame (Node W)) (side : N → Bool) (Cl : N → Nat → Frame → Prop)
+    (role : N → RoleC W) (n : N) (r : RouterArp W) (base : Soft W) (Cp : Packet → Prop) (ifs : List Iface)
+    (hr : role n = .routerDenyC (routerArpSoft r base) Cp ifs)
+    (harp : ∀ p i f, SideFacing sys side n p → Cl n p f → subjectToAcl f = some false → ifs[p]? = some i →
+      (f.arpReq = true → f.dstMac = bcastMac ∧ i.inNet f.arpSnd = true) ∧
+      (f.arpReq = false → f.dstMac = i.mac → f.pkt.dstIp = i.ip))
+    (hdisj : ∀ p i q j ip, SideFacing sys side n p → ifs[p]? = some i → ifs[q]? = some j → i.inNet ip = true →
+      j.inNet ip = true → ∀ m r', sys.wire n q = some (m, r') → side m = true)
+    (hreply : ∀ q o i f m r', sys.wire n q = some (m, r') → Cl m r' (arpReplyFrame o i f))
+    (hn : side n = true) :
+    ∀ s p i f f', invC sys side role n s → SideFacing sys side n p → Cl n p f → s.ifaces[p]? = some i →
+      ifaceRx s.kind s.ifaces i f = .up f' → subjectToAcl f' = some false →
+      SafeAct sys side (FromSideC sys side Cl) (invC sys side role) n
+        (guardSends portEnabled (permitted (routerArpSoft r base) s p f')) := by
+  intro s p i f f' hI hsf hcl hi hg hsub
+  have hinv : ∀ s', invC sys side role n s' ↔
+      (s'.kind = .router ∧ DeniesClass Cp (s'.acls .router) ∧ s'.ifaces = ifs) := by intro s'; simp [invC, hr]
+  have hI' := (hinv s).mp hI
+  have hsw : ∀ (s' : Node W) (x : W), invC sys side role n s' → invC sys side role n { s' with sw := x } :=
+    fun s' x hs' => (hinv _).mpr ((hinv s').mp hs')
+  obtain ⟨hf', hen⟩ := ifaceRx_up _ _ _ _ _ hg
+  have hsub0 : subjectToAcl f = some false := by rw [hf', subjectToAcl_ttl] at hsub; exact hsub
+  have hex : isArpExempt f' = true := by simp [isArpExempt, hsub]
+  have hi' : ifs[p]? = some i := by rw [← hI'.2.2]; exact hi
+  obtain ⟨hreq, hrep⟩ := harp p i f hsf hcl hsub0 hi'
+  have hmac : f.dstMac = i.mac ∨ f.dstMac = bcastMac := by
+    rw [hI'.1] at hg; exact ifaceRx_router_mac _ _ _ _ hg
+  have e1 : f'.arpReq = f.arpReq := by rw [hf']
+  have e2 : f'.arpSnd = f.arpSnd := by rw [hf']
+  have e3 : f'.dstMac = f.dstMac := by rw [hf']
+  have e4 : f'.pkt = f.pkt := by rw [hf']
+  simp only [permitted]
+  generalize hs1 : ({ s with sw := (routerArpSoft r base).learn s p f' } : Node W) = s1
+  have hI1 : invC sys side role n s1 := by rw [← hs1]; exact hsw s _ hI
+  have hifs1 : s1.ifaces = ifs := ((hinv s1).mp hI1).2.2
+  split
+  · -- session manager → ARP service
+    simp only [routerArpSoft, hex, if_true, arpSession]
+    generalize hs2 : ({ s1 with sw := r.sessRx s1 p f' } : Node W) = s2
+    have hI2 : invC sys side role n s2 := by rw [← hs2]; exact hsw s1 _ hI1
+    have hifs2 : s2.ifaces = ifs := ((hinv s2).mp hI2).2.2
+    split
+    · simp only [guardSends]; exact SafeAct.done hI2
+    · split
+      · simp only [guardSends]; exact SafeAct.done hI2
+      · rename_i hq
+        split
+        · simp only [guardSends]; exact SafeAct.done hI2
+        · rename_i i2 hi2
+          split
+          · simp only [guardSends]; exact SafeAct.done hI2
+          · split
+            · simp only [guardSends]; exact SafeAct.done hI2
+            · rename_i q hres
+              split
+              · simp only [guardSends]; exact SafeAct.done hI2
+              · rename_i o ho
+                have hk1 := (hinv s1).mp hI1
+                have hI3 : invC sys side role n { s1 with sw := r.sent s2 q } := (hinv _).mpr ⟨hk1.1, hk1.2.1, hk1.2.2⟩
+                simp only [guardSends]
+                split
+                · refine SafeAct.send hI3 ?_ (fun s' hs' => SafeAct.done hs')
+                  intro m r' hw
+                  -- the reply leaves through an interface whose network contains the requester's address
+                  have hreq' : f.arpReq = true := by
+                    rw [← e1]; cases h : f'.arpReq <;> simp_all
+                  have hin := (hreq hreq').2
+                  have hfe : firstEnabledIn s2.ifaces f'.arpSnd 0 = some q := by
+                    unfold routerResolveOut at hres
+                    cases hfe : firstEnabledIn s2.ifaces f'.arpSnd 0 with
+                    | some q' => simp only [hfe, Option.some.injEq] at hres; rw [hres]
+                    | none =>
+                      exact absurd hfe (firstEnabledIn_ne_none _ _ 0 p i (by rw [hifs2]; exact hi') (by rw [e2]; exact hin) hen)
+                  obtain ⟨_, j, hj, hjin, _⟩ := firstEnabledIn_some _ _ 0 q hfe
+                  simp only [Nat.sub_zero] at hj
+                  rw [hifs2] at hj
+                  rw [e2] at hjin
+                  exact ⟨hdisj p i q j f.arpSnd hsf hi' hj hin hjin m r' hw, ⟨n, q, hn, hw⟩, hreply q o i2 f' m r' hw⟩
+                · exact SafeAct.done hI3
+  · -- `process_frame`: broadcast or addressed to the router itself → dropped
+    rename_i hts
+    simp only [routerArpSoft, hex, if_true]
+    split
+    · simp only [guardSends]; exact SafeAct.done hI1
+    · rename_i hb
+      split
+      · simp only [guardSends]; exact SafeAct.done hI1
+      · rename_i hown
+        exfalso
+        have hnb : f.dstMac ≠ bcastMac := by rw [← e3]; simpa using hb
+        have hm : f.dstMac = i.mac := by rcases hmac with h | h; exact h; exact absurd h hnb
+        cases hq : f.arpReq with
+        | true => exact hnb (hreq hq).1
+        | false =>
+          have hip := hrep hq hm
+          apply hown
+          rw [hifs1, List.any_eq_true]
+          exact ⟨i, List.mem_of_getElem? hi', by rw [e4, hip]; simp⟩
+
+end arp
+
+/-! ## 5. what hosts emit: own source, own ARP sender, ARP targets -/
+
+/-- the session manager stamps the outbound interface's address also as the ARP sender of a request it frames -/
+def ownArp (s : Node W) (q : Nat) (g : Frame) : Frame :=
+  match s.ifaces[q]? with
+  | some i => if g.arp && g.arpReq then { ownSrc s q g with arpSnd := i.ip } else ownSrc s q g
+  | none => g
+
+/-- **`host_emits_own_src`, ARP half (1)**: every ARP request a node's software puts on a wire carries the outbound
+interface's own address as sender, so it lies in that interface's network. -/
+theorem C06_localOp_stamps_arp_sender (a : Script W) :
+    Emits (fun s q g => ∀ i, s.ifaces[q]? = some i → g.arp = true → g.arpReq = true → g.arpSnd = i.ip ∧ i.inNet g.arpSnd = true)
+      (guardSends portEnabled (stampSends ownArp a)) := by
+  induction a with
+  | done s => exact Emits.done
+  | send s q g k ih =>
+    simp only [stampSends, guardSends]
+    split
+    · refine Emits.send ?_ (fun s' => ih s')
+      intro i hi ha hq
+      have ha' : g.arp = true := by
+        simp only [ownArp, hi] at ha; split at ha <;> simpa [ownSrc, hi] using ha
+      have hq' : g.arpReq = true := by
+        simp only [ownArp, hi] at hq; split at hq <;> simpa [ownSrc, hi] using hq
+      simp [ownArp, hi, ha', hq', Iface.inNet]
+    · exact ih s
+
+/-- **`host_emits_own_src`, ARP half (2)**: the address `ARP.send_arp_request` really asks for is in the network of
+one of the node's interfaces, or is the configured default gateway; for a cached address nothing is sent. -/
+theorem C06_arp_request_local (ifaces : List Iface) (gw : Option Ip) (cached : Bool) (t t' : Ip)
+    (h : arpRequestTarget ifaces gw cached t = some t') :
+    cached = false ∧ ((∃ i ∈ ifaces, i.inNet t' = true) ∨ gw = some t') := by
+  unfold arpRequestTarget at h
+  cases cached with
+  | true => simp at h
+  | false =>
+    refine ⟨rfl, ?_⟩
+    simp only [Bool.false_eq_true, if_false] at h
+    split at h
+    · rename_i hany
+      injection h with h
+      subst h
+      obtain ⟨i, hi, hin⟩ := List.any_eq_true.mp hany
+      exact Or.inl ⟨i, hi, hin⟩
+    · exact Or.inr h
+
+/-- the request frame built for outbound interface `o` is a genuine (ACL-exempt) ARP packet, a broadcast, with `o`'s
+own address as source and sender; when the target is in `o`'s network so is the whole exchange -/
+theorem C06_arp_request_frame (o : Iface) (t : Ip) :
+    subjectToAcl (arpRequestFrame o t) = some false ∧ (arpRequestFrame o t).dstMac = bcastMac ∧
+    (arpRequestFrame o t).pkt.srcIp = o.ip ∧ (arpRequestFrame o t).arpSnd = o.ip ∧ o.inNet (arpRequestFrame o t).arpSnd = true := by
+  refine ⟨by simp [subjectToAcl, arpRequestFrame], rfl, rfl, rfl, ?_⟩
+  simp [arpRequestFrame, Iface.inNet]
+
+/-- source classes are closed under what hosts emit: when every interface address of the node (at the moment of
+sending) satisfies the source part of the class, so does the source of the frame that leaves -/
+theorem C06_localOp_src_class (srcOk : Ip → Prop) (a : Script W) :
+    Emits (fun s _ g => (∀ i ∈ s.ifaces, srcOk i.ip) → srcOk g.pkt.srcIp) (localOp a) := by
+  unfold localOp
+  induction a with
+  | done s => exact Emits.done
+  | send s q g k ih =>
+    simp only [stampSends, guardSends]
+    split
+    · rename_i hen
+      refine Emits.send ?_ (fun s' => ih s')
+      intro hp
+      unfold portEnabled at hen
+      cases hi : s.ifaces[q]? with
+      | none => simp [hi] at hen
+      | some i => simp only [ownSrc, hi]; exact hp i (List.mem_of_getElem? hi)
+    · exact ih s
+
 end Primaite.Filter
